@@ -321,6 +321,10 @@ class Registry:
     def abstract_for(self, it, node):
         if it.fn is None or it.fn.contract is None or node is None:
             return None
+        full = ast.unparse(node)
+        for a in it.fn.contract.abstracts:
+            if a.pattern == full:
+                return a.contract
         text = ast.unparse(node.func)
         for a in it.fn.contract.abstracts:
             if a.pattern == text:
@@ -448,7 +452,7 @@ def frame_obligations(it, before, after, locs, alloc_before, clause):
     # ghost effects (e.g. `printed`) not listed in the frame must not happen
     allowed = set(l.name for l in locs if isinstance(l, LocGhost))
     for name, val in after.ghost.items():
-        if name in allowed:
+        if name in allowed or name.startswith('raised_'):
             continue
         prev = before.ghost.get(name)
         if prev is None:
@@ -658,8 +662,20 @@ def new_symbolic_exception(it, raises_only_nodes, glob):
                 raise Unsupported('raises= needs class constants')
     st.assume(z3.Or(*[V.subclass(k, z3.IntVal(V.cid_of(c))) for c in classes]))
     st.assume(V.subclass(k, z3.IntVal(V.cid_of(BaseException))))
-    for key in list(st.heap.arrs):
-        pass
+    # shapes of builtin exception instances (CPython's own constructors guarantee these fields)
+    is_syntax = V.subclass(k, z3.IntVal(V.cid_of(SyntaxError)))
+    for name in ('lineno', 'offset', 'filename', 'msg', 'text', 'end_lineno', 'end_offset'):
+        v = st.raw_attr(r, name)
+        st.assume(z3.Implies(is_syntax, v != V.ABSENT))
+        if name in ('lineno', 'offset', 'end_lineno', 'end_offset'):
+            st.assume(z3.Implies(is_syntax, z3.Or(Val.is_none(v), Val.is_i(v))))
+        elif name == 'msg':
+            st.assume(z3.Implies(is_syntax, Val.is_s(v)))
+        else:
+            st.assume(z3.Implies(is_syntax, z3.Or(Val.is_none(v), Val.is_s(v))))
+    st.assume(st.raw_attr(r, '__traceback__') != V.ABSENT)
+    st.assume(st.raw_attr(r, 'args') != V.ABSENT)
+    st.trusted.add('instances of SyntaxError carry lineno/offset/end_* (int or None), msg (str), filename/text (str or None)')
     return exc
 
 
@@ -684,6 +700,12 @@ def apply_abstract(it, ac, args, kwargs):
         if st.branch(flag):
             exc = new_symbolic_exception(it, ac.raises_only, ac.glob)
             it.fn.abstract_log.append((label, 'raise', exc))
+            # ghost counter: how often this abstract callee has raised
+            gname = 'raised_' + label
+            cur = st.heap.ghost.get(gname)
+            if cur is None:
+                cur = Val.i(z3.Int('G0_' + gname))
+            st.heap.ghost[gname] = Val.i(Val.iv(cur) + 1)
             raise PyRaise(exc, origin=label)
     result = st.fresh('ret_' + label.replace('.', '_'))
     st.assume(z3.Implies(Val.is_o(result), Val.ref(result) < st.alloc))
